@@ -611,6 +611,10 @@ def e_add_def(rng, pkg, private):
     for d0 in lst:        # ... nor a name that a wildcard import brings in
         if d0["kind"] == "import" and d0["name"] == "*":
             used |= {bound(x) for m0, mp0 in iter_mods(pkg) if mp0 == d0["frm"] for x in m0.defs}
+    if ck == "module":    # ... nor, in a module that others import by wildcard, a name those importers bind themselves (it would rebind it there)
+        for m0, mp0 in iter_mods(pkg):
+            if any(d0["kind"] == "import" and d0["name"] == "*" and d0["frm"] == p for d0 in m0.defs):
+                used |= {bound(x) for x in m0.defs} | {x.name for x in m0.subs}
     if ck == "class":     # a new class member must not shadow an inherited one: stay clear of every name bound in any class body
         used |= {bound(d) for l2, d, p2, m2, mp2 in iter_defs(pkg) if l2 is not m2.defs}
     d = gen_def(rng, used, 1, private=private)
